@@ -1,19 +1,26 @@
 """
 C15 — stream compression of tar input/output is transparent.
 
-Proof: Sqfs/Props/C15.lean (wrapper loops of istream_xfrm/ostream_xfrm terminate and are transparent for every
-codec meeting the stated contract; the backends' process_data loops meet the contract for every library stream
-meeting the documented calling convention; a concrete toy codec meets all of it).
+Proof: Sqfs/Props/C15.lean (wrapper loops of istream_xfrm/ostream_xfrm terminate and are transparent for every codec meeting the
+stated contracts; truncated and corrupted input is an error, never a regular end; the four backends' process_data loops meet the
+contracts for every library stream meeting the documented calling conventions; errors of the wrapped streams are never swallowed;
+a concrete toy codec meets all of it).
 
 Tie, on every run, built from the working tree ($VERIF_REPO) under ASan+UBSan:
- (a) real lib/xfrm/src/istream.c + ostream.c driven by the *fake* toy codec (harness/h_c15.c) vs `sqfsmodel c15`
-     on the same scenarios: exhaustive small chunkings + seeded random, at several BUFSZ values (the constant
-     is rewritten in a scratch copy) and at the real BUFSZ;
+ (a) real lib/xfrm/src/istream.c + ostream.c driven by the *fake* toy codec (harness/h_c15.c) vs `sqfsmodel c15` on the same
+     scenarios: exhaustive small chunkings + seeded random + wrapped streams whose k-th call fails, at several BUFSZ values (the
+     constant is rewritten in a scratch copy) and at the real BUFSZ;
  (a') real gzip.c/xz.c/bzip2.c/zstd.c process_data loops over *fake* libraries (harness/h_c15w.c) vs the model;
- (b) real codecs at tool level: tar2sqfs on plain vs gzip/xz/zstd/bzip2 input (single stream, members split at
-     arbitrary offsets, trailing padding/garbage, truncated, bit-flipped); `sqfs2tar -c X` expanded by reference
-     decompressors (Python zlib/lzma/bz2, libzstd through harness/c15_zstd_ref.c) vs plain `sqfs2tar`;
-     sizes around multiples of BUFSZ with incompressible data; everything under a timeout (a hang is a result).
+ (a'') the real backends over the real libraries under the real wrappers (h_c15.c -DH_REAL_CODECS: ristream/rostream/rfeed) at
+     small BUFSZ values and the real one, judged by reference decompressors; contract clauses monitored call by call;
+ (c) tar_open_stream's probing and the magic table vs the model;
+ (b) real codecs at tool level: tar2sqfs on plain vs gzip/xz/zstd/bzip2 input (single stream, members split at arbitrary offsets
+     and straddling the input window, every preset level of the reference tools, pipe chunking, zstd special frames, trailing
+     padding/garbage, truncated, bit-flipped); `sqfs2tar -c X` expanded by reference decompressors (Python zlib/lzma/bz2, libzstd
+     through harness/c15_zstd_ref.c) vs plain `sqfs2tar`, and fed back to tar2sqfs; sizes around multiples of BUFSZ with
+     incompressible data and far back-references; everything under a CPU-time limit (a hang is a result).
+Nothing is lenient: streams of different length, a short answer of a helper, a non-zero exit code of a reference tool, an empty
+part or class raise CheckFailure (= violation "check could not complete"), never a pass.
 """
 import gzip as pygzip, bz2, hashlib, io, json, lzma, os, re, subprocess, tarfile, zlib
 from concurrent.futures import ThreadPoolExecutor
@@ -22,8 +29,12 @@ import vlib
 LEVEL = "proof"
 MODULE = "Sqfs.Props.C15"
 REQUIRED = ["Sqfs.C15.ostream_transparent", "Sqfs.C15.ostream_transparent_single", "Sqfs.C15.ostream_flush_terminates",
-            "Sqfs.C15.istream_transparent", "Sqfs.C15.truncated_is_error", "Sqfs.C15.process_data_meets_contract_partial",
+            "Sqfs.C15.istream_transparent_stream", "Sqfs.C15.istream_transparent",
+            "Sqfs.C15.truncated_is_error_stream", "Sqfs.C15.truncated_is_error", "Sqfs.C15.corrupt_is_error",
+            "Sqfs.C15.process_data_meets_contract", "Sqfs.C15.zstd_istream_transparent", "Sqfs.C15.zstd_truncated_is_error",
             "Sqfs.C15.backend_ostream_transparent", "Sqfs.C15.backend_istream_transparent", "Sqfs.C15.backend_truncated_is_error",
+            "Sqfs.C15.backend_corrupt_is_error", "Sqfs.C15.zstd_corrupt_is_error", "Sqfs.C15.toy_error_conventions_satisfiable",
+            "Sqfs.C15.toy_dead_example",
             "Sqfs.C15.toy_library_meets_convention", "Sqfs.C15.toy_encoder_meets_contract", "Sqfs.C15.toy_decoder_meets_contract",
             "Sqfs.C15.toy_decode_encode", "Sqfs.C15.probe_spec"]
 CODECS = ["gzip", "xz", "bzip2", "zstd"]
@@ -43,6 +54,32 @@ def report(ctx, key, what, replay, found_input=True, cap=3):
 
 def tok(b):
     return b.hex() if b else "-"
+
+
+def strict_zip(what, *seqs):
+    """zip() that refuses streams of different length (a lost or extra line is a failure of the check, never a pass)"""
+    n = {len(x) for x in seqs}
+    if len(n) != 1:
+        raise vlib.CheckFailure("%s: streams of different length %s" % (what, [len(x) for x in seqs]))
+    return zip(*seqs)
+
+
+def model_lines(ctx, lines, what):
+    """run the model driver on the lines: exactly one answer per line, none of them `bad-op`"""
+    if not lines:
+        raise vlib.CheckFailure("%s: no scenario was generated (an empty part is not a pass)" % what)
+    out = ctx.driver(["c15"], "\n".join(lines) + "\n")
+    if len(out) != len(lines):
+        raise vlib.CheckFailure("%s: model driver answered %d lines to %d" % (what, len(out), len(lines)))
+    bad = [l for l, o in zip(lines, out) if o.startswith("bad-op") or o == "assert"]
+    if bad:
+        raise vlib.CheckFailure("%s: model driver rejects a generated line: %s" % (what, bad[0][:200]))
+    return out
+
+
+def need(cond, what):
+    if not cond:
+        raise vlib.CheckFailure(what)
 
 
 def untok(t):
@@ -79,9 +116,10 @@ def bufsz_of(path):
     return int(m.group(1)) if m else None
 
 
-def build_fake_harness(ctx, bufsz, real):
+def build_fake_harness(ctx, bufsz, real, real_codecs=False):
     """h_c15 linked with the working tree's istream.c/ostream.c; for `real` the files are used as they are,
-    otherwise a scratch copy with only the BUFSZ constant rewritten"""
+    otherwise a scratch copy with only the BUFSZ constant rewritten.  `real_codecs`: additionally link the whole library of
+    the working tree and the compression libraries, so that the ops `rostream`/`ristream`/`rcall` run the real backends"""
     srcs = []
     for name in ("istream.c", "ostream.c"):
         p = vlib.REPO / "lib/xfrm/src" / name
@@ -94,6 +132,10 @@ def build_fake_harness(ctx, bufsz, real):
             q = ctx.scratch / ("b%d_%s" % (bufsz, name))
             q.write_text(text)
             srcs.append(str(q))
+    if real_codecs:
+        # the scratch istream.c/ostream.c come first on the link line, so they are the ones used; everything else from lib.a
+        return ctx.cc("h_c15rc_%d%s" % (bufsz, "r" if real else ""), ["h_c15.c"] + ([] if real else srcs) + [str(ctx.build_lib())],
+                      flags=["-DH_BUFSZ=%d" % bufsz, "-DH_REAL_CODECS"], libs=vlib.CODEC_LIBS)
     return ctx.cc("h_c15_%d%s" % (bufsz, "r" if real else ""), ["h_c15.c"] + srcs, flags=["-DH_BUFSZ=%d" % bufsz])
 
 
@@ -142,6 +184,8 @@ def run_lines(ctx, exe, lines, timeout=1800):
             out.append("HANG" if rc1 == "timeout" else "ABORT rc=%s %s" % (rc1, e[0][:200] if e else ""))
         bad_lines += 1
         start += k + 1
+    if len(out) != len(lines):
+        raise vlib.CheckFailure("harness %s answered %d lines to %d" % (exe, len(out), len(lines)))
     return out
 
 
@@ -202,6 +246,39 @@ def gen_fake_scenarios(ctx, bufsz, n_random, exhaustive):
                     cls = "valid" if toy_decode_all(part) is not None else "truncated"
                     add_i(0, 0, 0, part, [0, 1], [(1, 1)] * 14, cls, toy_decode_all(part) or b"")
                     add_i(40, 40, 100, part, [], [(bufsz, bufsz)] * 14, cls, toy_decode_all(part) or b"")
+    def ops_tokens(ops):
+        toks, segs, cur = [], [], b""
+        for op in ops:
+            if op == "f":
+                toks.append("f"); segs.append(cur); cur = b""
+            elif isinstance(op, int):
+                toks.append("z:%d" % op); cur += b"\0" * op
+            else:
+                toks.append("a:" + tok(op)); cur += op
+        return toks, segs, cur
+
+    # wrapped streams that fail: the k-th append / flush / get_buffered_data returns an error code
+    for _ in range(max(40, n_random // 3)):
+        a, g, t = params()
+        if rng.random() < 0.5:
+            ops = [rbytes(rng.choice([1, bufsz - 1 if bufsz > 1 else 1, bufsz, bufsz + 1, 2 * bufsz + 1, rng.randint(1, 3 * bufsz + 2)]))
+                   if rng.random() < 0.7 else "f" for _ in range(rng.randint(1, 5))] + ["f"]
+            af = (rng.randint(0, 6), rng.choice([-1, -5, -12, 7])) if rng.random() < 0.7 else None
+            ff = (rng.randint(0, 2), rng.choice([-1, -3, 9])) if (af is None or rng.random() < 0.3) else None
+            toks, segs, cur = ops_tokens(ops)
+            sc.append({"kind": "ostreamx", "line": "ostreamx %d %d %d %d %s %s %s" % (
+                bufsz, a, g, t, "%d:%d" % af if af else "-", "%d:%d" % ff if ff else "-", " ".join(toks)),
+                "segments": segs, "tail": cur, "afail": af, "ffail": ff})
+        else:
+            ms = [rbytes(rng.choice([0, 1, bufsz, bufsz + 1, rng.randint(0, 3 * bufsz + 2)])) for _ in range(rng.randint(1, 3))]
+            inner = b"".join(toy_encode(m) for m in ms)
+            script = [rng.choice([0, 0, 1, 2, bufsz, 3 * bufsz]) for _ in range(rng.randint(0, 12))]
+            client = [(rng.choice([1, 2, bufsz, 512]), rng.choice([1, 2, bufsz, 10 ** 6])) for _ in range(rng.randint(1, 12))]
+            client += [(1, 10 ** 6)] * (len(b"".join(ms)) + 3)
+            fail = (rng.randint(0, 8), rng.choice([-1, -2, -40]))
+            sc.append({"kind": "istreamx", "line": "istreamx %d %d %d %d %s %s %s %d:%d" % (
+                bufsz, a, g, t, tok(inner), ",".join(map(str, script)) or "-", ",".join("%d:%d" % c for c in client), fail[0], fail[1]),
+                "class": "valid", "expect": b"".join(ms), "client": client, "fail": fail})
     for _ in range(n_random):
         a, g, t = params()
         if rng.random() < 0.5:
@@ -283,7 +360,25 @@ def spec_verdict(s, impl):
     if impl.startswith("ABORT"):
         return ["no-abort"]
     f = impl.split()
-    if s["kind"] == "ostream":
+    if s["kind"] == "ostreamx":
+        # a failing call of the wrapped stream is reported with its own code; otherwise the usual clauses
+        codes = [c[1] for c in (s["afail"], s["ffail"]) if c]
+        if f[0] == "err":
+            return [] if int(f[1]) in codes else ["error-code-is-the-wrapped-stream's"]
+        if f[0] != "ok":
+            return ["protocol"]
+        if s["afail"] and int(f[3]) > s["afail"][0]:
+            return ["write-error-reported"]
+        if s["ffail"] and int(f[2]) > s["ffail"][0]:
+            return ["flush-error-reported"]
+    if s["kind"] == "istreamx":
+        if f[0] == "err":
+            return [] if int(f[1]) == s["fail"][1] else ["error-code-is-the-wrapped-stream's"]
+        if f[0] != "ok":
+            return ["protocol"]
+        if int(f[5]) > s["fail"][0]:
+            return ["read-error-reported"]
+    if s["kind"] in ("ostream", "ostreamx"):
         if f[0] != "ok":
             return ["no-error"]
         sink = untok(f[1])
@@ -313,7 +408,10 @@ def spec_verdict(s, impl):
         elif cls == "truncated":
             if f[0] == "ok" and f[2] == "1":
                 bad.append("truncated-is-error")
-        # garbage: no demand beyond termination / no abort
+        elif cls == "garbage":
+            # neither a member sequence nor a prefix of one: never a regular end (corrupt_is_error)
+            if f[0] == "ok" and f[2] == "1":
+                bad.append("corrupt-is-error")
     return bad
 
 
@@ -328,6 +426,7 @@ def fake_codec_part(ctx):
     stats = {"scenarios": 0, "nontrivial": 0, "by_bufsz": {}, "classes": {}, "disagreements": 0, "spec_failures": 0}
     samples = []
     work = []
+    monitor = []          # (sink, expected, open tail?) of every accepted ostream run, re-judged by the Lean specification
     for bufsz, nrand, exh in plan:
         work.append((bufsz, False, gen_fake_scenarios(ctx, bufsz, nrand, exh)))
     work.append((real_b, True, big_scenarios(ctx, real_b)))
@@ -349,16 +448,18 @@ def fake_codec_part(ctx):
             built[key] = build_fake_harness(ctx, bufsz, real)
         lines = [s["line"] for s in scs]
         impl = run_lines(ctx, built[key], lines)
-        model = ctx.driver(["c15"], "\n".join(lines) + "\n")
+        model = model_lines(ctx, lines, "fake codec, BUFSZ=%d" % bufsz)
         bk = str(bufsz) + ("(unmodified files)" if real else "")
         stats["by_bufsz"][bk] = stats["by_bufsz"].get(bk, 0) + len(lines)
-        for s, i, m in zip(scs, impl, model):
+        for s, i, m in strict_zip("fake codec part", scs, impl, model):
+            if s["kind"] == "ostream" and i.startswith("ok "):
+                monitor.append((i.split()[1], tok(b"".join(s["segments"]) + s["tail"]), bool(s["tail"])))
             stats["scenarios"] += 1
             cls = s["kind"] + ":" + s.get("class", "-")
             stats["classes"][cls] = stats["classes"].get(cls, 0) + 1
-            if s["kind"] == "ostream" and len(b"".join(s["segments"]) + s["tail"]) > bufsz:
+            if s["kind"] in ("ostream", "ostreamx") and len(b"".join(s["segments"]) + s["tail"]) > bufsz:
                 stats["nontrivial"] += 1
-            if s["kind"] == "istream" and (s["class"] != "valid" or len(s["expect"]) > bufsz):
+            if s["kind"] in ("istream", "istreamx") and (s["class"] != "valid" or len(s["expect"]) > bufsz):
                 stats["nontrivial"] += 1
             if len(samples) < 4 and stats["scenarios"] % 997 == 1:
                 samples.append({"line": s["line"][:300], "impl": i[:200], "model": m[:200]})
@@ -372,7 +473,8 @@ def fake_codec_part(ctx):
             rep = {"harness": "h_c15 (BUFSZ=%d%s)" % (bufsz, ", unmodified files" if real else ", constant rewritten"),
                    "line": s["line"] if len(s["line"]) < 20000 else s["line"][:20000] + "...", "impl": i[:2000], "model": m[:2000],
                    "desc": {"segments": [tok(x) for x in s.get("segments", [])], "tail": tok(s.get("tail", b"")),
-                            "class": s.get("class"), "expect": tok(s.get("expect", b""))}}
+                            "class": s.get("class"), "expect": tok(s.get("expect", b"")),
+                            "afail": s.get("afail"), "ffail": s.get("ffail"), "fail": s.get("fail")}}
             if bad:
                 stats["spec_failures"] += 1
                 if stats["spec_failures"] <= 5:
@@ -382,6 +484,28 @@ def fake_codec_part(ctx):
                 ctx.violation("corr:wrapper:" + vlib.sha(s["line"])[:10],
                               "model of %s_xfrm no longer matches the code (impl=%s model=%s); no clause of the specification fails on this input" % (
                                   s["kind"], i[:120], m[:120]), rep, found_input=False)
+    if stats.get("skipped") and not ctx.violations and not ctx.known_hits:
+        raise vlib.CheckFailure("%d fake-codec scenarios were skipped without any violation having been reported" % stats["skipped"])
+    # the Python oracle of the toy format against the Lean specification (`monitor members` = Spec.toyDecodeAll), on the
+    # implementation's sinks: a disagreement means the oracle used above is wrong
+    closed = [(sink, want) for sink, want, open_tail in monitor if not open_tail]
+    need(len(closed) >= 50, "too few closed ostream runs (%d) to cross-check the toy oracle" % len(closed))
+    mlines = ["monitor members %s %s" % (sink, want) for sink, want in closed]
+    verdicts = model_lines(ctx, mlines, "specification monitor")
+    for (sink, want), v in strict_zip("specification monitor", closed, verdicts):
+        py = toy_decode_all(untok(sink)) == untok(want)
+        if (v == "1") != py:
+            raise vlib.CheckFailure("Python toy oracle and Lean specification disagree on sink %s / input %s" % (sink[:80], want[:80]))
+    stats["monitor_crosschecked"] = len(closed)
+    # ... and the encoder/decoder of the toy format (Lean Toy.encode / Toy.decode, the `Dec` of the non-vacuity theorems)
+    xs = [bytes(ctx.rng.randrange(256) for _ in range(ctx.rng.randint(0, 9))) for _ in range(40)]
+    enc = model_lines(ctx, ["toyenc " + tok(x) for x in xs], "toy encoder")
+    dec = model_lines(ctx, ["toydec " + tok(toy_encode(x)) for x in xs] + ["toydec " + tok(toy_encode(x)[:-1]) for x in xs], "toy decoder")
+    for x, e, d, d2 in strict_zip("toy format", xs, enc, dec[:len(xs)], dec[len(xs):]):
+        if e != tok(toy_encode(x)) or d != "ok " + tok(x) or d2 != "fail":
+            raise vlib.CheckFailure("Python toy format and Lean Toy.encode/decode disagree on %s: %s / %s / %s" % (tok(x), e, d, d2))
+    for k in ("ostream:-", "ostreamx:-", "istream:valid", "istream:truncated", "istream:garbage", "istreamx:valid"):
+        need(stats["classes"].get(k, 0) > 0, "no fake-codec scenario of class %s was evaluated" % k)
     return stats, samples, real_b
 
 
@@ -433,7 +557,7 @@ def gen_wrap_scenarios(ctx, n_random):
             pos = 0
             while pos < len(data) and rng.random() < 0.6:
                 k = rng.randint(1, len(data) - pos)
-                calls.append((rng.choice([0, 0, 0, 1]), rng.choice([0, 1, 2, 3, 8, 40]), data[pos:pos + k])); pos += rng.randint(0, k)
+                calls.append((rng.choice([0, 0, 0, 1, 1, -1, 3, 7]), rng.choice([0, 1, 2, 3, 8, 40]), data[pos:pos + k])); pos += rng.randint(0, k)
             rest = data[pos:]
             for _ in range(rng.randint(1, 8)):
                 calls.append((2, rng.choice([1, 2, 3, 8, 40]), rest)); rest = b"" if rng.random() < 0.9 else rest
@@ -448,7 +572,7 @@ def gen_wrap_scenarios(ctx, n_random):
             pos = 0
             while pos < len(st) and rng.random() < 0.85:
                 k = rng.randint(1, min(6, len(st) - pos))
-                calls.append((rng.choice([0, 0, 0, 2]), rng.choice([0, 1, 2, 3, 8, 40]), st[pos:pos + k])); pos += k
+                calls.append((rng.choice([0, 0, 0, 2, 1, -2, 3, 100]), rng.choice([0, 1, 2, 3, 8, 40]), st[pos:pos + k])); pos += k
             for _ in range(rng.randint(1, 4)):
                 calls.append((2, rng.choice([1, 2, 8, 40]), b""))
         sc.append({"line": line(be, d, a, g, t, calls), "family": "random", "backend": be, "dir": d})
@@ -518,11 +642,11 @@ def wrapper_part(ctx):
                 if l.strip() and not l.startswith("#"):
                     scs.insert(0, {"line": l.strip(), "family": "corpus", "backend": l.split()[2], "dir": l.split()[3]})
     lines = [s["line"] for s in scs]
-    model = ctx.driver(["c15"], "\n".join(lines) + "\n")
-    old_model = ctx.driver(["c15"], "\n".join(l.replace("wrap new ", "wrap old ", 1) for l in lines) + "\n")
-    stats = {"scenarios": 0, "families": {}, "disagreements": 0, "spec_failures": 0, "unpatched_behaviour": 0,
+    model = model_lines(ctx, lines, "backend loops")
+    old_model = model_lines(ctx, [l.replace("wrap new ", "wrap old ", 1) for l in lines], "backend loops (model of the loops before fix 8eb5186/7b3a56e)")
+    stats = {"scenarios": 0, "families": {}, "disagreements": 0, "spec_failures": 0, "behaves_like_loops_before_the_fix": 0,
              "skipped_after_confirmed_hang": 0}
-    # sequences on which the unpatched loops spin (by the model of the unpatched code): probe a few first, and if the
+    # sequences on which the loops before the fix spin (by their model): probe a few first, and if the
     # working tree does spin there, do not pay a watchdog period for every further one
     predicted = [k for k in range(len(lines)) if old_model[k].endswith("hang") and not model[k].endswith("hang")]
     probe = predicted[:3]
@@ -532,8 +656,9 @@ def wrapper_part(ctx):
     stats["skipped_after_confirmed_hang"] = len(skip)
     todo = [k for k in range(len(lines)) if k not in skip and k not in probe]
     rest_out = run_lines(ctx, exe, [lines[k] for k in todo])
-    impl = {k: o for k, o in zip(probe, probe_out)}
-    impl.update({k: o for k, o in zip(todo, rest_out)})
+    impl = {k: o for k, o in strict_zip("backend loops (probe)", probe, probe_out)}
+    impl.update({k: o for k, o in strict_zip("backend loops", todo, rest_out)})
+    need(len(impl) + len(skip) == len(lines), "backend loops: %d of %d sequences evaluated" % (len(impl) + len(skip), len(lines)))
     reported = 0
     for k in sorted(impl):
         s, i, m, om = scs[k], impl[k], model[k], old_model[k]
@@ -548,21 +673,219 @@ def wrapper_part(ctx):
         bad, key = wrap_spec_verdict(s, i)
         as_old = same_trace(i, om)
         if as_old:
-            stats["unpatched_behaviour"] += 1
+            stats["behaves_like_loops_before_the_fix"] += 1
         rep = {"harness": "h_c15w (real process_data loops over the fake libraries)", "wrap_line": s["line"], "impl": i[:2000], "model": m[:2000],
-               "model_of_unpatched_loops": om[:2000], "matches_unpatched_model": as_old}
+               "model_of_loops_before_the_fix": om[:2000], "matches_model_before_the_fix": as_old}
         if bad:
             stats["spec_failures"] += 1
             report(ctx, key, "process_data of %s over the fake library violates %s (impl: %s)" % (s["backend"], bad, i[:150]), rep)
-        elif as_old:
-            # the working tree has the unpatched loop, whose model (Sqfs/Model/XfrmOld.lean) predicts exactly this trace, and no
-            # clause of the contract is violated on it (e.g. a FLUSH_FULL call on an idle stream object): nothing to report
-            pass
         elif reported < 5:
+            # every difference from the model of the current loops is reported, also when the trace is the one of the loops before
+            # the fix and no monitored clause fails on it: the theorems are about the current loops only
             reported += 1
             ctx.violation("corr:wrap:" + vlib.sha(s["line"])[:10],
-                          "neither the model of the %s process_data loop nor the model of the unpatched loop matches the code (impl=%s model=%s)" % (
-                              s["backend"], i[:100], m[:100]), rep, found_input=False)
+                          "the model of the %s process_data loop does not match the code (impl=%s model=%s)%s" % (
+                              s["backend"], i[:100], m[:100], "; the trace is the one of the loop before the fix" if as_old else ""),
+                          rep, found_input=False)
+    if (stats.get("skipped") or skip) and not ctx.violations and not ctx.known_hits:
+        raise vlib.CheckFailure("backend-loop sequences were skipped without any violation having been reported")
+    for fam in ("flush", "eof", "random"):
+        need(stats["families"].get(fam, 0) > 0, "no backend-loop sequence of family %s was evaluated" % fam)
+    return stats
+
+
+# ------------------------------------------------------------------------------------------------ real codecs under the wrappers (a'')
+def real_codec_part(ctx, real_b):
+    """the real backends over the real libraries *under the real wrappers*, with the BUFSZ constant rewritten to small values so that
+    member boundaries, buffer edges and chunk edges fall everywhere (and once at the real size), driven like in harness (a) and
+    judged by the reference decompressors; plus `rfeed`: the real process_data call by call, on which the clauses of the codec
+    contracts that can be read off a trace are monitored (the libraries are assumed to meet them — this is where they are exercised)"""
+    rng = ctx.rng
+    quick = ctx.quick()
+    T = Tools(ctx)
+    stats = {"scenarios": 0, "by_kind": {}, "by_codec": {}, "by_class": {}, "by_bufsz": {}, "violations": 0, "contract_calls_monitored": 0}
+
+    def piece():
+        r = rng.random()
+        n = rng.choice([0, 1, 2, 17, 100, 700, rng.randint(0, 3000)])
+        if r < 0.4:
+            return rng.randbytes(n)
+        if r < 0.7:
+            return (b"squashfs-tools-ng " * (n // 18 + 1))[:n]
+        return bytes(n)
+
+    def level_of(codec):
+        return rng.choice([x for x in LEVELS[codec] if not (codec == "xz" and str(x)[0] in "789") and not (codec == "zstd" and x == 22)])
+
+    def members(codec, pieces):
+        ms = []
+        for x in pieces:
+            if rng.random() < 0.5:
+                ms.append(ref_compress(T, codec, x, level_of(codec) if codec != "xz" else rng.choice([0, 1, 6])))
+            else:
+                ms.append(cli_compress(T, codec, x, level_of(codec)))
+        return ms
+
+    plan = [(5, 16), (64, 30), (1000, 20)] if quick else [(1, 100), (5, 300), (64, 600), (1000, 400), (4096, 200)]
+    work = []
+    for bufsz, n in plan:
+        scs = []
+        for _ in range(n):
+            codec = rng.choice(CODECS)
+            kind = rng.choice(["ristream", "ristream", "ristream", "rostream", "rfeed-d", "rfeed-c"])
+            if kind == "rostream":
+                ops, segs, cur = [], [], b""
+                for _ in range(rng.randint(1, 4)):
+                    if rng.random() < 0.25:
+                        ops.append("f"); segs.append(cur); cur = b""
+                    else:
+                        x = piece(); ops.append("a:" + tok(x)); cur += x
+                ops.append("f"); segs.append(cur)
+                scs.append({"kind": kind, "codec": codec, "line": "rostream %d %s 0 0 %s" % (bufsz, codec, " ".join(ops)), "want": b"".join(segs), "class": "-"})
+                continue
+            pieces = [piece() for _ in range(rng.randint(1, 3))]
+            ms = members(codec, pieces)
+            if codec == "zstd" and rng.random() < 0.3:
+                ms.insert(rng.randint(0, len(ms)), zstd_skippable(rng.randbytes(rng.randint(0, 20))))
+            stream, content, cls = b"".join(ms), b"".join(pieces), "valid"
+            full = content
+            r = rng.random()
+            if kind == "ristream" and r < 0.25 and len(stream) > MAGIC_LEN[codec] + 1:
+                stream = stream[:rng.randint(1, len(stream) - 1)]; cls = "cut"
+            elif kind == "ristream" and r < 0.45:
+                b = bytearray(stream); b[rng.randrange(len(b))] ^= 1 << rng.randrange(8); stream = bytes(b); cls = "flipped"
+            elif kind == "ristream" and r < 0.55:
+                stream += rng.randbytes(rng.randint(1, 9)); cls = "garbage"
+            if cls != "valid":
+                exp = ref_decompress_all(T, codec, stream)
+                lenient = zstd_paths_disagree(T, stream) if (exp is None and codec == "zstd") else None
+                if exp is not None:
+                    cls, content = "valid", exp          # the damage is not one (cut at a member boundary, flip in an unchecked field)
+                elif lenient is not None:
+                    cls, content = "either", lenient     # only one of libzstd's two decoding paths notices the damage
+                else:
+                    content = full if cls == "cut" else None
+            if kind == "ristream":
+                script = [rng.choice([0, 0, 1, 2, 7, bufsz, 3 * bufsz, 4095]) for _ in range(rng.randint(0, 40))]
+                client = [(rng.choice([1, 2, bufsz, 512]), rng.choice([1, 2, bufsz, 10 ** 6])) for _ in range(rng.randint(0, 10))]
+                # then a reader that takes everything it sees, for more rounds than the content can need
+                client += [(bufsz, 10 ** 6)] * ((max(len(full), len(content or b"")) + 1000) // bufsz + 12)
+                scs.append({"kind": kind, "codec": codec, "class": cls, "content": content,
+                            "line": "ristream %d %s 0 0 %s %s %s" % (bufsz, codec, tok(stream), ",".join(map(str, script)) or "-", ",".join("%d:%d" % c for c in client))})
+            elif kind == "rfeed-d":
+                bounds, pos = [], 0
+                for m in ms:
+                    pos += len(m); bounds.append(pos)
+                scs.append({"kind": kind, "codec": codec, "class": "valid", "content": content, "bounds": bounds, "nmembers": len(ms),
+                            "line": "rfeed %s d %d %d %s" % (codec, rng.choice([1, 3, 64, 5000]), rng.choice([1, 2, 7, 300, 10 ** 6]), tok(stream))})
+            else:
+                data = b"".join(pieces)
+                scs.append({"kind": kind, "codec": codec, "class": "-", "want": data,
+                            "line": "rfeed %s c %d %d %s" % (codec, rng.choice([1, 3, 64, 5000]), rng.choice([1, 2, 7, 300, 10 ** 6]), tok(data))})
+        work.append((bufsz, False, scs))
+    # at the real buffer size: members whose boundary lies just around the buffer edge of the wrapper
+    big = []
+    for codec in CODECS:
+        first = rng.randbytes(real_b - rng.choice([0, 1, 2]))
+        pieces = [first, rng.randbytes(rng.randint(1, 3000))]
+        stream = b"".join(ref_compress(T, codec, x) for x in pieces)
+        client = [(real_b, 10 ** 7)] * 8
+        big.append({"kind": "ristream", "codec": codec, "class": "valid", "content": b"".join(pieces),
+                    "line": "ristream %d %s 0 0 %s %s %s" % (real_b, codec, tok(stream), "131071,131071,0,4095", ",".join("%d:%d" % c for c in client))})
+    work.append((real_b, True, big))
+
+    xok, xend, xfull, xerr = 0, 1, 2, -1
+    for bufsz, real, scs in work:
+        exe = build_fake_harness(ctx, bufsz, real, real_codecs=True)
+        lines = [x["line"] for x in scs]
+        need(len(lines) > 0, "no real-codec scenario for BUFSZ=%d" % bufsz)
+        impl = run_lines(ctx, exe, lines)
+        for x, i in strict_zip("real codecs", scs, impl):
+            stats["scenarios"] += 1
+            for k, v in (("by_kind", x["kind"]), ("by_codec", x["codec"]), ("by_class", x["class"]), ("by_bufsz", str(bufsz))):
+                stats[k][v] = stats[k].get(v, 0) + 1
+            bad = None
+            f = i.split()
+            if i.endswith("HANG"):
+                bad = "terminates"
+            elif i.startswith("ABORT") or i == "SKIPPED" or not f or f[0] == "bad-op":
+                bad = "no-abort (%s)" % i[:80]
+            elif x["kind"] == "rostream":
+                if f[0] != "ok":
+                    bad = "no-error"
+                elif ref_decompress_all(T, x["codec"], untok(f[1])) != x["want"] and not (x["want"] == b"" and f[1] == "-"):
+                    bad = "reference expands what was written to the input"
+            elif x["kind"] == "ristream":
+                if x["class"] == "valid":
+                    if f[0] != "ok":
+                        bad = "no-error-on-valid-input"
+                    elif untok(f[1]) != x["content"] or f[2] != "1":
+                        bad = "delivered = content, then end-of-stream"
+                elif x["class"] == "either":
+                    if f[0] == "ok" and (untok(f[1]) != x["content"] or f[2] != "1"):
+                        bad = "error, or what libzstd's block-by-block path expands the stream to"
+                else:
+                    if f[0] == "ok":
+                        bad = "%s-is-error (run ended ok, eof=%s)" % (x["class"], f[2])
+                    elif x["content"] is not None and x["class"] == "cut" and not x["content"].startswith(untok(f[2])):
+                        bad = "delivered-is-prefix-of-content"
+            elif x["kind"] == "rfeed-d":
+                calls = [c.split(",") for c in f]
+                if any(len(c) != 5 for c in calls):
+                    bad = "protocol (%s)" % i[-60:]
+                else:
+                    stats["contract_calls_monitored"] += len(calls)
+                    got, consumed, ends = b"", 0, []
+                    for mode, avail, ret, cons, out in calls:
+                        mode, avail, ret, cons, out = int(mode), int(avail), int(ret), int(cons), untok(out)
+                        if ret == xerr:
+                            bad = "no-error-on-valid-input"; break
+                        if cons > avail:
+                            bad = "consumed <= offered"; break
+                        if ret == xfull and not out:
+                            bad = "BUFFER_FULL only with output"; break
+                        if ret == xend and mode == 0 and x["codec"] == "zstd":
+                            bad = "zstd: END only at the end of the input"; break
+                        got += out; consumed += cons
+                        if ret == xend:
+                            ends.append((consumed, len(got)))
+                    if not bad and got != x["content"]:
+                        bad = "decode = content"
+                    if not bad and calls[-1][2] != str(xend):
+                        bad = "END at the end of a valid stream"
+                    if not bad and x["codec"] != "zstd":
+                        # per-member contract: END exactly at the members' ends, nothing consumed beyond
+                        if sorted(set(e[0] for e in ends)) != x["bounds"]:
+                            bad = "END exactly at the end of each member (got %s, members end at %s)" % (ends, x["bounds"])
+            else:
+                calls = [c.split(",") for c in f]
+                if any(len(c) != 5 for c in calls):
+                    bad = "protocol (%s)" % i[-60:]
+                else:
+                    stats["contract_calls_monitored"] += len(calls)
+                    got = b""
+                    for mode, avail, ret, cons, out in calls:
+                        if int(ret) == xerr:
+                            bad = "encoder-never-fails"; break
+                        if int(cons) > int(avail):
+                            bad = "consumed <= offered"; break
+                        if int(ret) == xend and int(mode) == 0:
+                            bad = "END never answered to FLUSH_NONE"; break
+                        got += untok(out)
+                    if not bad and calls[-1][2] != str(xend):
+                        bad = "FLUSH_FULL eventually END"
+                    if not bad and ref_decompress_all(T, x["codec"], got) != x["want"]:
+                        bad = "reference expands what was written to the input"
+            if bad:
+                stats["violations"] += 1
+                report(ctx, "real-codec:%s:%s:%s" % (x["kind"], x["codec"], bad.split(" (")[0]),
+                       "%s with the real %s backend (BUFSZ=%d) violates: %s; answer %s" % (x["kind"], x["codec"], bufsz, bad, i[:160]),
+                       {"harness": "h_c15 -DH_REAL_CODECS (BUFSZ=%d%s)" % (bufsz, ", unmodified files" if real else ", constant rewritten"),
+                        "real_line": x["line"] if len(x["line"]) < 60000 else None, "real_line_sha": vlib.sha(x["line"]), "class": x["class"], "impl": i[:2000]})
+    for k in ("ristream", "rostream", "rfeed-d", "rfeed-c"):
+        need(stats["by_kind"].get(k, 0) > 0, "no real-codec scenario of kind %s" % k)
+    for c in CODECS:
+        need(stats["by_codec"].get(c, 0) > 0, "no real-codec scenario for %s" % c)
     return stats
 
 
@@ -607,10 +930,10 @@ def probe_part(ctx):
     for d in datas:
         lines.append("magic " + tok(d)); lines.append("probe " + tok(d))
     impl = run_lines(ctx, exe, lines)
-    model = ctx.driver(["c15"], "\n".join(lines) + "\n")
+    model = model_lines(ctx, lines, "probing")
     bad = 0
     kinds = {}
-    for l, i, m in zip(lines, impl, model):
+    for l, i, m in strict_zip("probing", lines, impl, model):
         kinds[i.split()[0] if l.startswith("probe") else "magic"] = kinds.get(i.split()[0] if l.startswith("probe") else "magic", 0) + 1
         if i != m:
             bad += 1
@@ -665,12 +988,48 @@ class Tools:
     def cpu_killed(rc):
         return rc in (-24, -9, 128 + 24, 128 + 9)
 
-    def pack(self, data, tag, timeout=None):
+    def _run_chunked(self, cmd, data, chunks, timeout):
+        """feed `data` through a pipe in writes of the given sizes (then the rest), a short pause between writes"""
+        import threading, time
+        p = subprocess.Popen(cmd, stdin=subprocess.PIPE, stdout=subprocess.PIPE, stderr=subprocess.PIPE, env=self.env)
+
+        def feed():
+            pos = 0
+            try:
+                for c in chunks:
+                    if pos >= len(data):
+                        break
+                    p.stdin.write(data[pos:pos + c]); p.stdin.flush(); pos += c
+                    time.sleep(0.0005)
+                p.stdin.write(data[pos:])
+            except (BrokenPipeError, OSError):
+                pass
+            finally:
+                try:
+                    p.stdin.close()
+                except OSError:
+                    pass
+        th = threading.Thread(target=feed, daemon=True)
+        th.start()
+        try:
+            so, se = p.stdout.read(), p.stderr.read()
+            p.wait(timeout=timeout)
+        except subprocess.TimeoutExpired:
+            p.kill(); p.wait()
+            raise
+        th.join(timeout=10)
+        return subprocess.CompletedProcess(cmd, p.returncode, so, se)
+
+    def pack(self, data, tag, timeout=None, chunks=None):
         """tar2sqfs on `data` → ('ok', sha256) | ('fail', rc) | ('hang',) | ('abort', rc, msg)"""
         self.n += 1
         out = self.d / ("img_%s_%d_%d.sqfs" % (tag, os.getpid(), id(data) % 100000 + self.n))
         try:
-            r = subprocess.run(self.limited([str(self.t2s), "-q", "-f", str(out)]), input=data, capture_output=True, env=self.env, timeout=timeout or self.t1)
+            cmd = self.limited([str(self.t2s), "-q", "-f", str(out)])
+            if chunks:
+                r = self._run_chunked(cmd, data, chunks, timeout or self.t1)
+            else:
+                r = subprocess.run(cmd, input=data, capture_output=True, env=self.env, timeout=timeout or self.t1)
         except subprocess.TimeoutExpired:
             if out.exists():
                 out.unlink()
@@ -708,12 +1067,69 @@ class Tools:
             return ("fail", r.returncode)
         return ("ok", r.stdout)
 
-    def zstd(self, mode, data, level=None):
-        r = subprocess.run([str(self.zref), mode] + ([str(level)] if level is not None else []), input=data, capture_output=True, env=self.env, timeout=120)
-        return r.stdout if r.returncode == 0 else None
+    def zstd(self, mode, data, level=None, wlog=None):
+        """libzstd reference coder; decoding: None = the stream is rejected (exit 1/2); any other failure is a failure of the check"""
+        args = [str(self.zref), mode] + ([str(level)] if level is not None else []) + ([str(wlog)] if wlog is not None else [])
+        r = subprocess.run(args, input=data, capture_output=True, env=self.env, timeout=300)
+        if mode in ("d", "d1"):
+            if r.returncode in (1, 2):
+                return None
+            need(r.returncode == 0, "reference zstd decoder failed with exit code %s: %s" % (r.returncode, r.stderr[-200:]))
+            return r.stdout
+        need(r.returncode == 0 and len(r.stdout) > 0, "reference zstd coder failed (%s): exit %s %s" % (args[1:], r.returncode, r.stderr[-200:]))
+        return r.stdout
 
 
-LEVELS = {"gzip": (1, 9), "xz": (0, 6), "bzip2": (1, 9), "zstd": (1, 19)}
+# every preset level of the reference tools (`xz -9e` = extreme; zstd 20..22 are the `--ultra` levels)
+LEVELS = {"gzip": list(range(1, 10)), "xz": list(range(0, 10)) + ["9e", "6e"], "bzip2": list(range(1, 10)), "zstd": list(range(1, 20)) + [22]}
+QUICK_LEVELS = {"gzip": [1, 9], "xz": [0, 6, 7, 9, "9e"], "bzip2": [1, 9], "zstd": [1, 19, 22]}
+
+
+def cli_compress(T, codec, data, level):
+    """the archive as the reference command line tool writes it at that preset (zstd: libzstd through c15_zstd_ref — no zstd CLI is
+    installed —, streaming without announced size and with content checksum, as `tar c | zstd -N` does: the frame header carries
+    the window the level asks for, 2^27 at level 22).  Exit codes and empty outputs are failures of the check."""
+    if codec == "zstd":
+        return T.zstd("cs", data, level)
+    lv = str(level)
+    cmd = {"gzip": ["gzip", "-n", "-c", "-" + lv],
+           "xz": ["xz", "-c", "-T1", "-" + lv[0]] + (["-e"] if lv.endswith("e") else []),
+           "bzip2": ["bzip2", "-c", "-" + lv]}[codec]
+    r = subprocess.run(cmd, input=data, capture_output=True, timeout=600)
+    need(r.returncode == 0 and len(r.stdout) > 0, "%s failed (exit %s): %s" % (" ".join(cmd), r.returncode, r.stderr[-200:]))
+    return r.stdout
+
+
+def member_of_length(T, codec, tar, target, tries=10):
+    """a cut of `tar` whose first part compresses to (as near as possible) `target` bytes: (cut, achieved length, compressed)"""
+    cut, best = max(1, min(len(tar) - 1, target)), None
+    seen = set()
+    for _ in range(tries):
+        if cut in seen:
+            break
+        seen.add(cut)
+        c = ref_compress(T, codec, tar[:cut])
+        d = target - len(c)
+        if best is None or abs(d) < abs(target - best[1]):
+            best = (cut, len(c), c)
+        if d == 0:
+            break
+        cut = max(1, min(len(tar) - 1, cut + d))
+    return best
+
+
+def zstd_skippable(payload, nibble=0):
+    return (0x184D2A50 + nibble).to_bytes(4, "little") + len(payload).to_bytes(4, "little") + payload
+
+
+def zstd_with_dict_id(frame, dict_id=0x2A):
+    """the frame with the Dictionary_ID field switched on in its header (a decoder without that dictionary refuses it)"""
+    fhd = frame[4]
+    if fhd & 3:
+        return None
+    single = (fhd >> 5) & 1
+    pos = 5 + (0 if single else 1)
+    return frame[:4] + bytes([fhd | 1]) + frame[5:pos] + bytes([dict_id]) + frame[pos:]
 
 
 def ref_compress(T, codec, data, level=None):
@@ -761,11 +1177,21 @@ def ref_decompress_all(T, codec, data):
         return None
 
 
+def zstd_paths_disagree(T, data):
+    """libzstd has two decoding paths (one pass when the whole frame and enough room are there, block by block otherwise) whose
+    checks differ in some versions (1.5.4: a Frame_Content_Size larger than the content is noticed by the first only).  Returns the
+    expansion by the lenient path if the strict reference rejects `data` but the block-by-block path accepts it, else None: such a
+    stream is damage the library cannot see on one of its paths, and either verdict of the code under test is taken."""
+    if T.zstd("d", data) is not None:
+        return None
+    return T.zstd("d1", data)
+
+
 def tool_part(ctx, bufsz):
     T = Tools(ctx)
     rng = ctx.rng
     quick = ctx.quick()
-    results = {"tar2sqfs_runs": 0, "sqfs2tar_runs": 0, "by_class": {}, "outcomes": {}}
+    results = {"tar2sqfs_runs": 0, "sqfs2tar_runs": 0, "by_class": {}, "by_codec": {}, "outcomes": {}}
     samples = []
     jobs = []          # (class, codec, description, data, oracle) for tar2sqfs
 
@@ -781,6 +1207,11 @@ def tool_part(ctx, bufsz):
         n = total - 512 - 1024
         body = rng.randbytes(n) if rnd else (b"squashfs" * (n // 8 + 1))[:n]
         archives.append(("edge%dx%+d%s" % (k, delta, "r" if rnd else "c"), mk_tar([("f", body)])))
+    # back-references near the far end of deflate's 32 KiB window, also across the edge of the wrapper's output buffer (within one
+    # call the decoder copies from its output; only across calls does it need its window: a gzip decoder set up with a smaller
+    # window fails there): the same 30000 random bytes, 1.5 buffers long
+    far = rng.randbytes(30000)
+    archives.append(("far-matches", mk_tar([("f", (far * (3 * bufsz // 60000 + 1))[:3 * bufsz // 2])])))
     plain = {}
     slowest = 0.0
     import resource
@@ -797,29 +1228,56 @@ def tool_part(ctx, bufsz):
                          "wall_isolated_rerun_s": T.t2}
     confirmed_hangs = set()
 
-    def add(cls, codec, tag, desc, data, oracle):
-        jobs.append((cls, codec, tag, desc, data, oracle))
+    def add(cls, codec, tag, desc, data, oracle, chunks=None):
+        need(data is not None and len(data) > 0, "empty input generated for %s/%s/%s" % (cls, codec, desc))
+        jobs.append((cls, codec, tag, desc, data, oracle, chunks))
 
+    levels = LEVELS
     for tag, tar in archives:
         small = tag == "small"
         for codec in CODECS:
             whole = ref_compress(T, codec, tar)
             add("single", codec, tag, "single stream", whole, "same")
+            # members: two at a few cuts, three with possibly empty ones; for the archives of k*BUFSZ bytes one of each
+            for cut in sorted({1, 511, 512, 513, rng.randint(1, len(tar) - 1), len(tar) - 1}) if small else [rng.randint(1, len(tar) - 1)]:
+                add("members", codec, tag, "2 members split at %d" % cut, ref_compress(T, codec, tar[:cut]) + ref_compress(T, codec, tar[cut:]), "same")
             if small or not quick:
-                for cut in sorted({1, 511, 512, 513, rng.randint(1, len(tar) - 1), len(tar) - 1}) if small else [rng.randint(1, len(tar) - 1)]:
-                    add("members", codec, tag, "2 members split at %d" % cut, ref_compress(T, codec, tar[:cut]) + ref_compress(T, codec, tar[cut:]), "same")
                 a, b = sorted((rng.randint(0, len(tar)), rng.randint(0, len(tar))))
                 add("members", codec, tag, "3 members split at %d,%d (one possibly empty)" % (a, b),
                     ref_compress(T, codec, tar[:a]) + ref_compress(T, codec, tar[a:b]) + ref_compress(T, codec, tar[b:]), "same")
+            # the archive arriving through a pipe in many small writes
+            if small or tag == archives[1][0]:
+                sizes = [rng.choice([1, 2, 7, 511, 512, 513, 4096, rng.randint(1, 9000)]) for _ in range(rng.randint(20, 60))]
+                add("pipe-chunks", codec, tag, "single stream written in %d pieces of 1..9000 bytes, then the rest" % len(sizes), whole, "same", sizes)
+            if small or tag == "far-matches" or (not quick and tag == archives[1][0]):
+                # every preset level of the reference tools
+                for lvl in (levels[codec] if tag != "far-matches" else [levels[codec][0], [x for x in levels[codec] if isinstance(x, int)][-1]]):
+                    add("level", codec, tag, "reference tool at level %s" % lvl, cli_compress(T, codec, tar, lvl), "same")
             if small:
-                for lvl in LEVELS[codec]:
-                    add("level", codec, tag, "level %d" % lvl, ref_compress(T, codec, tar, lvl), "same")
                 if codec == "zstd":
                     add("single", codec, tag, "single frame without content checksum", T.zstd("c", tar), "same")
+                    z1, z2 = T.zstd("cc", tar[:777]), T.zstd("c", tar[777:], 3)
+                    sk = zstd_skippable(rng.randbytes(rng.randint(0, 40)), rng.randrange(16))
+                    # not recognised by tar_open_stream (its magic table knows the standard frame magic only; the skippable magics are
+                    # shared with the LZ4 frame format): read as a plain tar stream and rejected — a clean error, never another image
+                    add("zstd-frames", codec, tag, "skippable frame first (not recognised as zstd)", sk + whole, "same-or-error")
+                    add("zstd-frames", codec, tag, "skippable frames between and after two frames", z1 + sk + z2 + zstd_skippable(b""), "reference")
+                    add("zstd-frames", codec, tag, "skippable frame cut short at the end", whole + sk[:-1] if len(sk) > 8 else whole + sk[:5], "reference")
+                    did = zstd_with_dict_id(whole)
+                    if did:
+                        add("zstd-frames", codec, tag, "frame header names a dictionary", did, "reference")
+                    add("zstd-frames", codec, tag, "window log 27 (largest a default decoder accepts)", T.zstd("cs", tar, 19, 27), "same")
+                    add("zstd-frames", codec, tag, "window log 28 (a default decoder refuses it)", T.zstd("cs", tar, 19, 28), "reference")
                 for pad in (1, 4, 512, 10240):
                     add("padding", codec, tag, "+%d zero bytes" % pad, whole + b"\0" * pad, "same-or-error")
                 add("garbage", codec, tag, "+ trailing garbage", whole + rng.randbytes(rng.randint(1, 64)), "same-or-error")
-            ncut = (8 if small else 2) if quick else (40 if small else 6)
+            elif tag == archives[2][0]:
+                # second member starting just before / at the edge of the 128 KiB window of the wrapped file stream
+                edge = 131072 * (1 if quick else rng.choice([1, 2]))
+                for k in ([rng.choice([1, 2, 3])] if quick else [0, 1, 2, 3, 5]):
+                    cut, got, first = member_of_length(T, codec, tar, edge - k)
+                    add("straddle", codec, tag, "2 members, the second starts at byte %d (edge %d)" % (got, edge), first + ref_compress(T, codec, tar[cut:]), "same")
+            ncut = (8 if small else 2) if quick else (80 if small else 10)
             cuts = {MAGIC_LEN[codec], len(whole) - 1, len(whole) - 4, len(whole) // 2, 100}
             while len(cuts) < ncut + 5:
                 cuts.add(rng.randint(MAGIC_LEN[codec], len(whole) - 1))
@@ -828,7 +1286,7 @@ def tool_part(ctx, bufsz):
             # the magic number itself damaged: tar_open_stream cannot recognise the codec and reads the bytes as a tar stream
             b0 = bytearray(whole); b0[0] ^= 1
             add("magic-damaged", codec, tag, "bit 0 of byte 0 (magic number) flipped, %d bytes" % len(whole), bytes(b0), "error-or-same")
-            nflip = (6 if small else 1) if quick else (40 if small else 4)
+            nflip = (6 if small else 1) if quick else (120 if small else 10)
             for _ in range(nflip):
                 pos = rng.randrange(len(whole)); bit = rng.randrange(8)
                 b = bytearray(whole); b[pos] ^= 1 << bit
@@ -838,19 +1296,24 @@ def tool_part(ctx, bufsz):
                     add("flipped", codec, tag, "bit %d of byte %d flipped" % (bit, pos), bytes(b), "reference")
 
     def run_job(j):
-        cls, codec, tag, desc, data, oracle = j
-        res = T.pack(data, codec)
+        cls, codec, tag, desc, data, oracle, chunks = j
+        res = T.pack(data, codec, chunks=chunks)
         ref = None
         if oracle == "reference":
             exp = ref_decompress_all(T, codec, data)
             ref = ("rejects",) if exp is None else T.pack(exp, "ref")
+            if exp is None and codec == "zstd":
+                lenient = zstd_paths_disagree(T, data)
+                if lenient is not None:
+                    ref = ("either", T.pack(lenient, "ref"))
         return res, ref
 
     with ThreadPoolExecutor(max_workers=JOBS) as ex:
         outs = list(ex.map(run_job, jobs))
     results["tar2sqfs_runs"] = len(jobs) + len(archives)
     # a first-pass timeout is only a suspicion: run the case alone with a much longer timeout (once per kind of hang)
-    for idx, ((cls, codec, tag, desc, data, oracle), (res, ref)) in enumerate(zip(jobs, outs)):
+    need(len(outs) == len(jobs), "tar2sqfs jobs: %d results for %d jobs" % (len(outs), len(jobs)))
+    for idx, ((cls, codec, tag, desc, data, oracle, chunks), (res, ref)) in enumerate(zip(jobs, outs)):
         hk = "gzip-data" if (codec == "gzip" and cls in ("flipped", "padding", "garbage")) else (codec, cls)
         if res[0] == "hang" and res[1] == "wall" and hk not in confirmed_hangs:
             res2 = T.pack(data, codec, timeout=T.t2)
@@ -858,8 +1321,9 @@ def tool_part(ctx, bufsz):
                 confirmed_hangs.add(hk)
             outs[idx] = (res2, ref)
             results["isolated_reruns"] = results.get("isolated_reruns", 0) + 1
-    for (cls, codec, tag, desc, data, oracle), (res, ref) in zip(jobs, outs):
+    for (cls, codec, tag, desc, data, oracle, chunks), (res, ref) in strict_zip("tar2sqfs jobs", jobs, outs):
         results["by_class"][cls] = results["by_class"].get(cls, 0) + 1
+        results["by_codec"][codec] = results["by_codec"].get(codec, 0) + 1
         results["outcomes"]["%s:%s" % (cls, res[0] if res[0] != "ok" else ("same" if res[1] == plain[tag] else "other-image"))] = \
             results["outcomes"].get("%s:%s" % (cls, res[0] if res[0] != "ok" else ("same" if res[1] == plain[tag] else "other-image")), 0) + 1
         same = res[0] == "ok" and res[1] == plain[tag]
@@ -882,13 +1346,17 @@ def tool_part(ctx, bufsz):
         elif oracle == "error-or-same" and not (same or clean_err):
             key, what = "truncated-accepted:%s" % codec, "tar2sqfs exits 0 with a shorter image on a truncated %s stream (%s)" % (codec, desc)
         elif oracle == "reference":
-            if ref == ("rejects",):
+            if ref[0] == "either":
+                results["zstd_library_paths_disagree"] = results.get("zstd_library_paths_disagree", 0) + 1
+                if not (clean_err or res[:2] == ref[1][:2]):
+                    key, what = "corrupt-accepted:%s" % codec, "tar2sqfs on a %s stream only libzstd's block-by-block path accepts (%s) gives neither an error nor the image of that path's expansion" % (codec, desc)
+            elif ref == ("rejects",):
                 if not (same or clean_err):
                     key, what = "corrupt-accepted:%s" % codec, "tar2sqfs exits 0 with another image on a %s stream the reference decompressor rejects (%s)" % (codec, desc)
             elif ref[0] in ("ok", "fail") and res[0] in ("ok", "fail"):
                 if (ref[0] == "ok") != (res[0] == "ok") or (ref[0] == "ok" and ref[1] != res[1]):
                     # reference accepts the damaged stream (damage outside checked data): must behave as on its expansion
-                    key, what = "not-transparent:%s:flipped" % codec, "tar2sqfs on a damaged but decodable %s stream (%s) differs from tar2sqfs on the reference expansion" % (codec, desc)
+                    key, what = "not-transparent:%s:%s" % (codec, cls), "tar2sqfs on a %s stream the reference decompressor accepts (%s) differs from tar2sqfs on the reference expansion" % (codec, desc)
         if len(samples) < 6 and results["by_class"][cls] == 1:
             samples.append({"class": cls, "codec": codec, "archive": tag, "variant": desc, "bytes": len(data), "outcome": res[0] if not same else "same image"})
         if key:
@@ -910,19 +1378,27 @@ def tool_part(ctx, bufsz):
         tag, codec, img, base = j
         res = T.unpack(img, codec)
         exp = ref_decompress_all(T, codec, res[1]) if res[0] == "ok" else None
-        return res, exp
+        # and back: the compressed stream sqfs2tar wrote, read by tar2sqfs, gives the image of the plain stream
+        back = (T.pack(res[1], codec + "_back"), T.pack(base, "plain_back")) if res[0] == "ok" and tag in ("small", archives[1][0]) else None
+        return res, exp, back
 
     with ThreadPoolExecutor(max_workers=JOBS) as ex:
         uouts = list(ex.map(run_u, ujobs))
-    for idx, ((tag, codec, img, base), (res, exp)) in enumerate(zip(ujobs, uouts)):
+    need(len(uouts) == len(ujobs) and len(ujobs) == len(archives) * len(CODECS), "sqfs2tar jobs: %d results for %d jobs" % (len(uouts), len(ujobs)))
+    for idx, ((tag, codec, img, base), (res, exp, back)) in enumerate(zip(ujobs, uouts)):
         if res[0] == "hang" and res[2] == "wall" and ("sqfs2tar", codec) not in confirmed_hangs:
             res2 = T.unpack(img, codec, timeout=T.t2)
             if res2[0] == "hang":
                 confirmed_hangs.add(("sqfs2tar", codec))
-            uouts[idx] = (res2, ref_decompress_all(T, codec, res2[1]) if res2[0] == "ok" else None)
+            uouts[idx] = (res2, ref_decompress_all(T, codec, res2[1]) if res2[0] == "ok" else None, None)
             results["isolated_reruns"] = results.get("isolated_reruns", 0) + 1
     results["sqfs2tar_runs"] = len(ujobs) + len(archives)
-    for (tag, codec, img, base), (res, exp) in zip(ujobs, uouts):
+    for (tag, codec, img, base), (res, exp, back) in strict_zip("sqfs2tar jobs", ujobs, uouts):
+        if back is not None:
+            results["roundtrips"] = results.get("roundtrips", 0) + 1
+            if back[0][:2] != back[1][:2] or back[1][0] != "ok":
+                report(ctx, "not-transparent:roundtrip:%s" % codec, "tar2sqfs on the output of sqfs2tar -c %s gives %s, on the plain output %s" % (codec, back[0][:2], back[1][:2]),
+                       {"tool": "sqfs2tar", "codec": codec, "archive": tag, "tar_len": len(base), "archive_recipe": "round trip"})
         key = what = None
         oc = res[0] if res[0] != "ok" else ("expands-to-plain" if exp == base else "does-not-expand")
         results["outcomes"]["sqfs2tar:" + oc] = results["outcomes"].get("sqfs2tar:" + oc, 0) + 1
@@ -937,6 +1413,11 @@ def tool_part(ctx, bufsz):
         if key:
             report(ctx, key, what, {"tool": "sqfs2tar", "codec": codec, "archive": tag, "tar_len": len(base),
                                       "archive_recipe": "one file of incompressible/compressible bytes so that the tar stream is %d bytes" % len(base)})
+    for cls in ("single", "members", "level", "pipe-chunks", "straddle", "zstd-frames", "padding", "garbage", "truncated", "magic-damaged", "flipped"):
+        need(results["by_class"].get(cls, 0) > 0, "no tar2sqfs run of class %s" % cls)
+    for codec in CODECS:
+        need(results["by_codec"].get(codec, 0) > 0, "no tar2sqfs run for %s" % codec)
+    need(results.get("roundtrips", 0) >= len(CODECS), "round trips sqfs2tar -c X | tar2sqfs missing")
     return results, samples
 
 
@@ -951,29 +1432,32 @@ def run(ctx):
     fstats, fsamples, bufsz = fake_codec_part(ctx)
     ctx.log("fake codec: %d scenarios, %d disagreements" % (fstats["scenarios"], fstats["disagreements"]))
     wstats = wrapper_part(ctx)
-    ctx.log("wrappers over fake libraries: %d call sequences, %d disagreements (%d behave like the unpatched loops)" % (
-        wstats["scenarios"], wstats["disagreements"], wstats["unpatched_behaviour"]))
+    ctx.log("wrappers over fake libraries: %d call sequences, %d disagreements (%d behave like the loops before the fix)" % (
+        wstats["scenarios"], wstats["disagreements"], wstats["behaves_like_loops_before_the_fix"]))
     pstats = probe_part(ctx)
     ctx.log("probing: %d inputs, %d disagreements" % (pstats["lines"], pstats["disagreements"]))
+    rstats = real_codec_part(ctx, bufsz)
+    ctx.log("real codecs under the wrappers: %d scenarios, %d violations, %d process_data calls monitored" % (
+        rstats["scenarios"], rstats["violations"], rstats["contract_calls_monitored"]))
     tstats, tsamples = tool_part(ctx, bufsz)
     ctx.log("tools: %d tar2sqfs runs, %d sqfs2tar runs" % (tstats["tar2sqfs_runs"], tstats["sqfs2tar_runs"]))
     ctx.cov.update({
-        "evaluations": fstats["scenarios"] + wstats["scenarios"] + pstats["lines"] + tstats["tar2sqfs_runs"] + tstats["sqfs2tar_runs"],
+        "evaluations": fstats["scenarios"] + wstats["scenarios"] + pstats["lines"] + rstats["scenarios"] + tstats["tar2sqfs_runs"] + tstats["sqfs2tar_runs"],
         "distinct_nontrivial": fstats["nontrivial"] + sum(v for k, v in tstats["by_class"].items() if k != "single"),
         "rule": "fake-codec scenarios: operation sequences on the real ostream_xfrm / chunking+reader scripts on the real istream_xfrm, at BUFSZ in "
                 "%s; non-trivial = more data than one buffer, or a truncated/garbage/damaged stream. Tool runs: tar2sqfs on generated "
                 "archives (one multi-file, others sized k*BUFSZ +-512 with incompressible/compressible bytes) wrapped by the reference "
                 "compressors in the listed variants; sqfs2tar -c X expanded by the reference decompressors; non-trivial = every variant other than the plain single stream" % sorted(fstats["by_bufsz"]),
-        "fake_codec": fstats, "backend_loops": wstats, "probing": pstats, "tools": tstats,
+        "fake_codec": fstats, "backend_loops": wstats, "probing": pstats, "real_codecs_under_wrappers": rstats, "tools": tstats,
         "samples": fsamples + tsamples,
         "disagreements_checked": fstats["disagreements"] + wstats["disagreements"],
         "bufsz": bufsz,
     })
     return ctx.finish(LEVEL, trusted_extra=[
-        "zlib, liblzma, libbz2 are represented by the library-level conventions LibEncContract/LibDecContract of Sqfs/Spec/XfrmContract.lean (assumed; exercised at tool level against reference decompressors: Python zlib/lzma/bz2), libzstd through zstd.c by EncContract/DecContract directly (the zstd loop's contract theorem is not proved; exercised by harness a' and against libzstd)",
-        "modelled: lib/xfrm/src/istream.c, ostream.c (as written), the process_data loops of gzip.c/xz.c/bzip2.c/zstd.c (with fixes/C15-*.patch applied; the unpatched loops are Sqfs/Model/XfrmOld.lean)",
-        "harness/h_c15.c (fake codec, scripted source, sink), harness/c15_zstd_ref.c, tools/checks/c15.py (generators, oracles)"],
-        assumptions=["inputs shorter than the codec's magic number are not recognised as compressed by tar_open_stream and are read as a plain tar stream (out of scope here)",
+        "zlib, liblzma, libbz2, libzstd are represented by the library-level conventions LibEncContract/LibDecContract/LibDecErrContract, ZEncContract/ZDecContract/ZDecErrContract of Sqfs/Spec/XfrmContract.lean (assumed; exercised under the real wrappers and call by call by part a'' and at tool level against reference decompressors: Python zlib/lzma/bz2, libzstd; producers: the gzip/xz/bzip2 command line tools, libzstd's streaming API)",
+        "modelled: lib/xfrm/src/istream.c, ostream.c, the process_data loops of gzip.c/xz.c/bzip2.c/zstd.c, compress.c's magic table, tar_open_stream's probing, as in the current tree (the loops before fix commits 8eb5186/7b3a56e are Sqfs/Model/XfrmOld.lean, used by Sqfs/Witness/C15.lean only)",
+        "harness/h_c15.c (fake codec, scripted source and sink with failure injection, real-codec ops), h_c15w.c + c15_fakelib.[ch], h_c15p.c, c15_zstd_ref.c, tools/checks/c15.py (generators, oracles)"],
+        assumptions=["inputs that do not start with a codec's magic number (shorter than it, or a zstd stream whose first frame is a skippable frame) are not recognised as compressed by tar_open_stream, are read as a plain tar stream and rejected by the tar reader (limitation, not claimed)",
                      "zstd frames without content checksum cannot reveal payload damage; damaged streams are judged against the reference decompressor's verdict"])
 
 
@@ -990,10 +1474,22 @@ def replay(ctx, path):
         model = ctx.driver(["c15"], line + "\n")
         d = rp.get("desc", {})
         s = {"kind": line.split()[0], "line": line, "segments": [untok(x) for x in d.get("segments", [])], "tail": untok(d.get("tail", "-")),
-             "class": d.get("class"), "expect": untok(d.get("expect", "-"))}
+             "class": d.get("class"), "expect": untok(d.get("expect", "-")),
+             "afail": d.get("afail"), "ffail": d.get("ffail"), "fail": d.get("fail")}
         bad = spec_verdict(s, impl[0])
         print("impl :", impl[0][:500]); print("model:", model[0][:500]); print("clauses violated:", bad)
         return 1 if bad or impl[0] != model[0] else 0
+    if "real_line" in rp:
+        if not rp["real_line"]:
+            print("the recorded line was too long to keep (sha256 %s): re-run the tier with the recorded seed" % rp.get("real_line_sha"))
+            return 1
+        line = rp["real_line"]
+        bufsz = int(line.split()[1]) if line.split()[0] != "rfeed" else 64
+        exe = build_fake_harness(ctx, bufsz, "unmodified" in rp.get("harness", ""), real_codecs=True)
+        impl = run_lines(ctx, exe, [line], timeout=300)
+        print("impl :", impl[0][:1500]); print("recorded:", rp.get("impl", "")[:1500])
+        print("(the verdict needs the reference decompressor: class %s; see tools/checks/c15.py real_codec_part)" % rp.get("class"))
+        return 1 if impl[0] == rp.get("impl", "")[:2000] or impl[0].endswith("HANG") or impl[0].startswith("ABORT") else 0
     if "wrap_line" in rp:
         ctx.lean_build(["sqfsmodel"])
         exe = build_wrap_harness(ctx)
